@@ -328,8 +328,17 @@ fn make(n: usize, boxed: bool) -> Box<dyn ByteDeq> {
             Box::new(CircularBuffer::<N, u8>::new())
         }
     }
-    crate::dispatch_cap!(n, N => mk::<N>(boxed), panic!("capacity {n} not in table"))
+    match n {
+        // capacities above any plausible "large backlog" threshold (one page and more)
+        4097 => mk::<4097>(boxed),
+        4098 => mk::<4098>(boxed),
+        5000 => mk::<5000>(boxed),
+        10000 => mk::<10000>(boxed),
+        _ => crate::dispatch_cap!(n, N => mk::<N>(boxed), panic!("capacity {n} not in table")),
+    }
 }
+
+pub const BIG_IO_CAPS: [usize; 4] = [4097, 4098, 5000, 10000];
 
 thread_local! {
     static OFF: std::cell::RefCell<std::collections::HashMap<usize, usize>> = Default::default();
@@ -966,7 +975,34 @@ pub fn enum_ops(n: usize, len: usize, full: bool) -> Vec<IoOp> {
     ops
 }
 
+/// Sparse space for the big capacities: every operation with amounts around 0, the page size, the length and the capacity.
+fn big_cases(n: usize, start: usize, len: usize, api: Api) -> Vec<IoCase> {
+    let mut ks: Vec<usize> = vec![0, 1, 2, 100, 4095, 4096, 4097, len / 2, n / 2];
+    for d in [0usize, 1, 2, 100, 4095, 4096, 4097] {
+        ks.push(len.saturating_sub(d));
+        ks.push(len + d);
+        ks.push(n.saturating_sub(d));
+    }
+    ks.retain(|k| *k <= 2 * n + 1);
+    ks.sort_unstable();
+    ks.dedup();
+    let mut ops = vec![IoOp::FillBuf, IoOp::Flush, IoOp::ReadToEnd, IoOp::CopyOut, IoOp::Consume(Amt::Max), IoOp::FillBufConsume(Amt::Max), IoOp::ReadUntil(Amt::Max)];
+    for k in &ks {
+        let k = *k as u32;
+        ops.extend([IoOp::Write(k), IoOp::Read(k), IoOp::Consume(Amt::At(k)), IoOp::FillBufConsume(Amt::At(k)), IoOp::ReadUntil(Amt::At(k)), IoOp::ReadExact(k), IoOp::TakeToEnd(k)]);
+        ops.push(IoOp::ReadVectored(k, 3, 4097));
+        ops.push(IoOp::WriteVectored(k, 1, 4097));
+    }
+    ops.into_iter()
+        .enumerate()
+        .map(|(i, op)| IoCase { n: n as u32, start: start as u32, len: len as u32, route: (i % 3) as u8, pattern: [0u8, 0xFF, 0x5A][i % 3], api, ops: vec![op, IoOp::Write(3), IoOp::Read((n + 1) as u32)] })
+        .collect()
+}
+
 pub fn enum_cases(n: usize, start: usize, len: usize, api: Api, thorough: bool) -> Vec<IoCase> {
+    if BIG_IO_CAPS.contains(&n) {
+        return big_cases(n, start, len, api);
+    }
     let mut out = Vec::new();
     let ops = enum_ops(n, len, true);
     let mk = |ops: Vec<IoOp>, route: u8, pattern: u8| IoCase { n: n as u32, start: start as u32, len: len as u32, route, pattern, api, ops };
@@ -992,7 +1028,7 @@ pub fn enum_cases(n: usize, start: usize, len: usize, api: Api, thorough: bool) 
 
 pub fn io_case_strategy(api: Api, max_ops: usize) -> proptest::strategy::BoxedStrategy<IoCase> {
     use proptest::prelude::*;
-    let caps: Vec<u32> = vec![0, 1, 2, 3, 4, 5, 6, 7, 8, 9, 13, 16, 17, 31, 32, 33, 64, 65, 100, 128, 129, 255, 256];
+    let caps: Vec<u32> = vec![0, 1, 2, 3, 4, 5, 6, 7, 8, 9, 13, 16, 17, 31, 32, 33, 64, 65, 100, 128, 129, 255, 256, 1000, 4098, 5000];
     let amt = prop_oneof![4 => any::<u16>().prop_map(Amt::Frac), 3 => (0u32..12).prop_map(Amt::At), 2 => (0u32..4).prop_map(Amt::Past), 1 => Just(Amt::Max)];
     proptest::sample::select(caps)
         .prop_flat_map(move |n| {
@@ -1133,6 +1169,15 @@ pub fn run_io(apis: &[Api], thorough: bool, seed: u64, threads: usize, prop_case
                     for start in 0..n {
                         units.push((*api, n, start, len));
                     }
+                }
+            }
+        }
+    }
+    for api in apis {
+        for &n in &BIG_IO_CAPS {
+            for start in [0, 1, n / 2, n - 1] {
+                for len in [0, 1, 4095, 4096, 4097, n - 4097, n - 1, n] {
+                    units.push((*api, n, start, len));
                 }
             }
         }
